@@ -15,7 +15,7 @@ from pbmon.gen import pop
 
 PROPERTY = "C08"
 NSHARDS = {"quick": 6, "thorough": 16}
-CLAUSES = {"C08.reseed": 400, "C08.process": 40, "C08.explicit.depends": 150, "C08.explicit.global": 150}
+CLAUSES = {"C08.reseed": 1000, "C08.process": 40, "C08.explicit.depends": 500, "C08.explicit.global": 300}
 HOOKS_REQUIRED = ["explicit-generator call preceded by a larger call of the same component",
                   "explicit-generator call with a cached normal deviate pending in the global NumPy stream",
                   "explicit-generator call with a cached normal deviate pending in the global Python stream",
@@ -81,7 +81,7 @@ for _c in ("SubsetSelectionConfiguration", "SubsetMateSelectionConfiguration"):
     KEPT["%s@new object from a kept selection vector/%s" % (_c, ONE)] = ("vector", _c, ONE, KEPT["%s@object built once, sampled repeatedly/%s" % (_c, ONE)][3])
 for _z, _d in ((ONE, ((4, 3), False)), (ONE + ", scalar size", (12, False)), (TWO, ((8, 3), False)), (REM, ((5, 3), False)), (FEW, ((2, 3), False)),
                ("with replacement, weighted", ((5, 3), True))):
-    KEPT["tiled_choice@kept option array/" + _z] = ("tiled_choice", "tiled_choice", _z, _d)
+    KEPT["tiled_choice@kept option array/" + _z] = ("tiled_choice", "tiled_choice", _z.split(",")[0] if _z.startswith(ONE) else _z, _d)
 KEPT["sus@kept option and weight arrays"] = ("sus", "sus", "kept option and weight arrays", None)
 RAW = "raw global draws/odd number of normal deviates"
 
@@ -464,6 +464,9 @@ def run_program(prog, wseed, seed, prefix, world=None, keep=None):
                 o.progeny_counter = 0; o.family_counter = 0
     if keep is not None:
         keep.append(w)
+    for name in prog:        # kept option arrays / configuration objects exist before the seeding (private generator, global streams untouched)
+        if name in KEPT:
+            w.keep(name)
     prng.seed(seed)
     out = []
     taps = []
